@@ -33,10 +33,10 @@ def handleTokens (inp : List String) (obs : String) : Verdict :=
       let tags := [if w.conc then "concurrent" else "sequential", s!"writers{min spawned 4}",
                    if w.sched.isEmpty then "free-run" else "forced"]
                   ++ (if (tokens r.render).head?.any (·.contains 'b') then ["blocked-probe"] else [])
-      match Biogo.Morass.historyOf w.ac w.ops with
+      match Biogo.Morass.historyOf w.ac (Biogo.Morass.dropRejects w.ops) with
       | none => if m == impl then ok (tags ++ ["illformed"]) else diff m (tags ++ ["illformed"])
       | some h =>
-        let tags := tags ++ (if spawned ≥ 1 && !w.sched.isEmpty then ["nt"] else [])
+        let tags := tags ++ [s!"cycles{min h.length 4}"] ++ (if w.ops.any (· == Op.reject) then ["rejected-push"] else []) ++ (if spawned ≥ 1 && !w.sched.isEmpty then ["nt"] else [])
         if obs == "crash" || obs.startsWith "panic" then fail "harness-process-or-goroutine-panicked" tags
         else if obs == "hang" then fail "hang" tags
         else if w.chunk = 0 || w.flt.isSome then (if m == impl then ok tags else diff m tags)
@@ -47,8 +47,7 @@ def handleTokens (inp : List String) (obs : String) : Verdict :=
             match outToks.mapM Biogo.Drive.C11.parseOut with
             | none => fail "a-call-returned-an-error-or-panicked" tags
             | some outs =>
-              if outs.length ≠ w.ops.length then fail "history-did-not-complete" tags else
-              match Biogo.Drive.C11.checkHistory w.ac h 1 outs with
+              match Biogo.Drive.C11.programStatement w.ac h w.ops outs with
               | some why => fail why tags
               | none => if m == impl then ok tags else diff m tags
           | _ => fail "unparsable-observation" tags
